@@ -284,7 +284,7 @@ def _same_field(a, b):
     if a is None or b is None:
         return True
     a2, b2 = str(a).replace("len:", ""), str(b).replace("len:", "")
-    return a2 == b2 or a2.split(".")[-1] == b2.split(".")[-1]
+    return a2 == b2 or a2.split(".")[-1] == b2.split(".")[-1] or a2.split(".")[0] == b2.split(".")[0]
 
 
 def diff(w, r, path=""):
@@ -348,6 +348,10 @@ def diff(w, r, path=""):
             # Script.serialize is a varstr; a reader may call X.parse(s) for it
             if not _same_field(a[1], b[1]):
                 return "%s: `%s` vs `%s`" % (where, a[1], b[1])
+            continue
+        if ka == "nested" and kb == "bytes" or ka == "bytes" and kb == "nested":
+            if not _same_field(a[1] if ka == "nested" else a[3], b[3] if kb == "bytes" else b[1]):
+                return "%s: `%s` vs `%s`" % (where, a[1] if ka == "nested" else a[3], b[3] if kb == "bytes" else b[1])
             continue
         if ka == "hash" and kb == "bytes":
             if len(a) > 2 and a[2] and b[1] and a[2] != b[1]:
